@@ -43,6 +43,9 @@ type Config struct {
 	Wait       func() // synctest.Wait
 	KeepEvents bool
 	Stdin      string
+	// OnFinish is called (once) at the moment the run's observable result is
+	// fixed: the harness records how much has been written to stdout/stderr.
+	OnFinish func()
 }
 
 const (
@@ -293,6 +296,9 @@ func (s *Sim) finishLocked(outcome string, code int, pv, stack string) {
 	s.res.PanicStack = stack
 	s.res.Stdout = string(s.stdout)
 	s.res.Stderr = string(s.stderr)
+	if s.cfg.OnFinish != nil {
+		s.cfg.OnFinish()
+	}
 	if s.cfg.FS != nil {
 		s.cfg.FS.freeze()
 	}
@@ -659,23 +665,10 @@ func Exit(code int) {
 type stream struct{ fd int }
 
 func (w stream) Write(p []byte) (int, error) {
-	if mode.Load() != ModeSerial {
-		if w.fd == 1 {
-			return realStdout().Write(p)
-		}
-		return realStderr().Write(p)
+	if w.fd == 1 {
+		return realStdout().Write(p)
 	}
-	s := cur
-	s.mu.Lock()
-	if !s.done {
-		if w.fd == 1 {
-			s.stdout = append(s.stdout, p...)
-		} else {
-			s.stderr = append(s.stderr, p...)
-		}
-	}
-	s.mu.Unlock()
-	return len(p), nil
+	return realStderr().Write(p)
 }
 
 // Stdout and Stderr replace os.Stdout and os.Stderr in instrumented code.
